@@ -124,7 +124,7 @@ class Peer(object):
                 req = json.loads(body)
                 token = req["params"][0]
                 self.consumed.append((act, token))
-                good = json.dumps({"jsonrpc": "2.0", "id": req["id"], "result": token}).encode()
+                good = json.dumps({"jsonrpc": "2.0", "id": req["id"], "result": token}, ensure_ascii=False).encode("utf-8")
 
                 def send(status, payload, extra=b"", length=True):
                     h = b"HTTP/1.1 " + status + b"\r\n" + extra
@@ -180,7 +180,8 @@ class Peer(object):
                 elif act == "empty200":
                     send(b"200 OK", b"")
                 elif act == "nonjson":
-                    send(b"200 OK", b"<html>")
+                    # what a proxy or captive portal answers: a page in its own charset
+                    send(b"200 OK", b"<html>caf\xe9</html>", b"Content-Type: text/html; charset=ISO-8859-1\r\n")
         except (OSError, ValueError):
             pass
         finally:
@@ -219,8 +220,10 @@ def run_script(peer, script, tail=3):
     peer.script.clear()
     del peer.consumed[:]
     if peer.family == "tcp":
-        url = "http://127.0.0.1:%d/rpc" % peer.port
-        host_handler = "127.0.0.1:%d/rpc" % peer.port
+        # paths and query strings with the characters a URL may legally hold there ('@' included)
+        suffix = ["/rpc", "/rpc?x=1&y=a%20b", "/p@th/rpc?notify=ops@example.org", "/", "/rpc?at=@"][(len(script) + sum(len(a) for a in script)) % 5]
+        url = "http://127.0.0.1:%d%s" % (peer.port, suffix)
+        host_handler = "127.0.0.1:%d%s" % (peer.port, suffix)
     else:
         url = "unix+http://" + peer.path
         host_handler = None
@@ -234,7 +237,7 @@ def run_script(peer, script, tail=3):
             ncalls += 1
             if len(pending) <= tail and tail_start is None:
                 tail_start = len(records)
-            token = "tok%d-%d" % (os.getpid(), next(_tok))
+            token = "tok%d-%d-\u00e9\u20ac" % (os.getpid(), next(_tok))      # not ASCII: a reply decoded with the wrong charset is not one's own
             refuse = pending[0] == "refuse"
             if refuse:
                 pending.popleft()
